@@ -203,8 +203,7 @@ Record dialect := {
   d_div : Z -> Z -> Z;
   d_str2num : list Z -> numlit;
   d_strlt : list Z -> list Z -> bool;
-  d_otto_cmp : bool;         (* otto's transcription of 11.8.5 / 11.9.3 instead of the clause text *)
-  d_lio_otto : bool          (* String.prototype.lastIndexOf: a NaN position counts as 0 and -Infinity as +Infinity *)
+  d_otto_cmp : bool          (* otto's transcription of 11.8.5 / 11.9.3 instead of the clause text *)
 }.
 
 Section WithDialect.
@@ -487,11 +486,8 @@ Definition unop (op : Z) (v : value) : M value :=
       ret (VP (PStr (skipn (Z.to_nat st) abc)))
     else if op =? 16 then
       (* S40.lastIndexOf("a", v): 15.5.4.8, NaN counts as +Infinity; min(max(pos, 0), 40) and the last match at or before it *)
-      (* builtinStringLastIndexOf: number().kind == numberInfinity for either sign searches the whole string,
-         and a NaN position arrives as int64 0 *)
-      let undef := match v with VP PUndef => true | _ => false end in   (* an undefined position is tested for first *)
-      let pos := if is_nan a then (if d_lio_otto d && negb undef then 0 else 40) else if pinf then 40
-                 else if ninf then (if d_lio_otto d then 40 else 0)
+      (* (otto since /repo commit ea386ab; before it NaN was taken as 0 and -Infinity as +Infinity) *)
+      let pos := if is_nan a then 40 else if pinf then 40 else if ninf then 0
                  else match ti with Some k => Z.min (Z.max k 0) 40 | None => 0 end in
       ret (num (of_int (Z.min pos 39)))
     else if op =? 17 then
@@ -622,14 +618,14 @@ End WithDialect.
 Definition spec_d : dialect := {|
   d_int32 := to_int32; d_uint32 := to_uint32; d_uint16 := to_uint16; d_integer := to_integer; d_div := fdiv;
   d_str2num := string_to_number; d_strlt := units_lt;
-  d_otto_cmp := false; d_lio_otto := false |}.
+  d_otto_cmp := false |}.
 
 Definition model_str2num (s : list Z) : numlit := NLVal (parse_number s).
 
 Definition model_d : dialect := {|
   d_int32 := m_to_int32; d_uint32 := m_to_uint32; d_uint16 := m_to_uint16; d_integer := m_to_integer; d_div := m_divide;
   d_str2num := model_str2num; d_strlt := m_str_lt;
-  d_otto_cmp := true; d_lio_otto := true |}.
+  d_otto_cmp := true |}.
 
 (* observation of one run: status (0 normal, else the thrown tag), result, final variables, log *)
 Definition obs := (Z * oval * list oval * list Z)%type.
